@@ -47,6 +47,9 @@ func (r *runner) replayPath(g *graph, path []int32, scratch string) (out outcome
 		if out.drift == "" {
 			out.drift = w.drift
 		}
+		if out.drift == "" && w.ioDrift != "" {
+			out.drift = "I/O calls of Commit differ from the specification's steps (outcome as specified): " + w.ioDrift
+		}
 		w.cleanup()
 	}()
 	if err := os.MkdirAll(scratch, 0o755); err != nil {
@@ -457,8 +460,10 @@ func (w *world) commitChain(g *graph, path []int32, i int, before tla.Value) (en
 		}
 		w.crashInto()
 		w.crashAfter = -1
-		// the I/O sequence up to the crash is all that can be compared
-		return end, nil, ioDrift, nil
+		// the I/O sequence up to the crash is all that can be compared here;
+		// the reopened image is judged at the Reopen step
+		w.ioDrift = ioDrift
+		return end, nil, "", nil
 	}
 	w.crashAfter = -1
 
@@ -468,7 +473,8 @@ func (w *world) commitChain(g *graph, path []int32, i int, before tla.Value) (en
 	realErr := cerr != nil
 	if realErr == specErr {
 		// state comparison is done by the caller against the CommitEnd state
-		return end, nil, ioDrift, nil
+		w.ioDrift = ioDrift
+		return end, nil, "", nil
 	}
 	var dd []divergence
 	var real viewDump
